@@ -35,9 +35,16 @@ class Shards:
             pi = self.pidx[key] = len(self.progs)
         self.n += 1
         cid = "%s-%d" % (self.prefix, self.n)
+        if len(call["events"]) > 1200:          # keep shards loadable: the call is kept for the session predicates, its trace is not validated
+            call = dict(call, events=[])
+            oversize = True
+        else:
+            oversize = False
         case = {"id": cid, "pi": pi, "op": call["op"], "data": list(data), "start": start,
                 "kw": V.enc(kw or {}), "flt": fault or NOFAULT, "arg": arg if arg is not None else V.VNone(),
                 "events": call["events"], "res": call["res"]}
+        if oversize:
+            case["skip"] = True
         self.cases.append(case)
         if keep:
             self.meta[cid] = {"prog": prog, "case": case, "tag": tag}
@@ -80,7 +87,7 @@ def validate(paths, jvms=8, workers=2, scratch=None, timeout=3600, module="Trace
             p = futs[fu]
             with open(p) as f:
                 txt = f.read()
-                ncases = txt.count('"runs":') if module == "TraceExpr" else txt.count('"events":') + (txt.count('"clause":') if module == "Trace" else 0)
+                ncases = txt.count('"runs":') if module == "TraceExpr" else txt.count('"kind":"h') if module == "TraceC20" else txt.count('"events":') + (txt.count('"clause":') if module == "Trace" else 0)
             if len(vs) != ncases:
                 raise tlc.MachineryError("shard %s: %d cases but %d verdicts" % (p, ncases, len(vs)))
             verdicts.extend(vs)
